@@ -32,6 +32,7 @@ func checkC02(c *Ctx, r *Report) {
 	c02Layout(c, r, a)
 	c02SharedDefaults(c, r, a)
 	c02BindArm(c, r, a)
+	importRulesFrom(c, r, "C04", func(c *Ctx, sub *Report) { c04Gate(c, sub, a) }, "C02.REFLARGS", "the reflected argument vector is built from the shared argument builder's map of this evaluation and only when it reported no error (C04.GATE): a vector remembered from an earlier evaluation gives reflection other arguments than the interface and root resolvers get", "C04.GATE~formReflectArgs")
 	c02ValErr(c, r, a)
 	cacheVerdictRule(c, r, a, "C02.CACHE", "the reflection strategy then answers with an error (and null) for a node whose GraphQL type was first seen with another Go type, where the interface and root-resolver strategies answer with the data")
 }
